@@ -821,9 +821,10 @@ def run(ctx):
     # self-test: the same case evaluated twice gives identical observations
     probe = [c for c in cases if c[0] == 3 and not c[1]][-1]
     a, b = fam_split(probe), fam_split(probe)
-    assert a["sig"] == b["sig"] and a["evals"] == b["evals"] and \
-        [v["key"] for v in a["viol"]] == [v["key"] for v in b["viol"]], \
-        "non-deterministic observations"
+    ctx.selftest_same(
+        a["sig"] == b["sig"] and a["evals"] == b["evals"] and
+        [v["key"] for v in a["viol"]] == [v["key"] for v in b["viol"]],
+        "fam_split%r" % (probe,))
     ctx.explore("split", cases, desc="net vs net.splitted_copy(v, p), every "
                 "nsi_* method of Network")
     cases = [(5, False, m, wi, 2) for (_, _, m) in iso(5, False)
